@@ -62,7 +62,7 @@ def load_program():
     prog = json.load(open(out))
     os.remove(out)
     # keep the cache small
-    for old in sorted(glob.glob(os.path.join(cdir, '*.pickle')), key=os.path.getmtime)[:-3]:
+    for old in sorted(glob.glob(os.path.join(cdir, '*.pickle')), key=os.path.getmtime)[:-10]:
         try: os.remove(old)
         except OSError: pass
     with open(pj + '.tmp', 'wb') as f:
@@ -114,6 +114,8 @@ class Explorer:
         self.uncaught_panic_is_violation = True
         self.init_pkgs = []
         self.max_paths = 200000
+        self.split_after = 0
+        self.leftover = []
         self.samples = []
         self.params = {}
         self.ufs = {}
@@ -254,6 +256,14 @@ class Explorer:
         P['vfUFInt'] = vfUF
         P['vfUFBool'] = vfUF
 
+        def vfBytes(it_, args, fn):
+            name = args[0].decode(); n = args[1]
+            bs = [it.fresh('%s[%d]' % (name, k), z3.BitVecSort(8)) for k in range(n)]
+            v = SymStr(bs) if bs else b''
+            it.path.nondet.append(('vfBytes', name, v))
+            return v
+        P['vfBytes'] = vfBytes
+
         def vfIsSym(it_, args, fn):
             return True
         P['vfSymbolic'] = vfIsSym
@@ -294,6 +304,11 @@ class Explorer:
             npaths += 1
             if npaths > self.max_paths:
                 self.inconclusive.append(('path-limit', self.harness))
+                break
+            if self.split_after and npaths > self.split_after:
+                # hand the unexplored subtrees back to the runner (work splitting over processes)
+                pending.append(prefix)
+                self.leftover = [list(p) for p in pending]
                 break
             path = Path(prefix, pending)
             it.path = path
@@ -349,7 +364,7 @@ class Explorer:
             'asserts_proved': st.asserts_proved, 'asserts_failed': st.asserts_failed,
             'unsupported': st.unsupported, 'unwind': st.unwind, 'reach': st.reach,
             'violations': [v.to_json() for v in self.violations], 'inconclusive': self.inconclusive[:20],
-            'functions': sorted(st.funcs), 'samples': self.samples, 'assumed_away': st.assumed_away,
+            'leftover': self.leftover, 'functions': sorted(st.funcs), 'samples': self.samples, 'assumed_away': st.assumed_away, 'cuts': st.cuts,
         }
 
 
@@ -393,4 +408,15 @@ if __name__ == '__main__':
         opts = json.loads(sys.argv[3])
     s = run_harness((full, init, opts.get('prefixes'), opts))
     fns = s.pop('functions', None)
-    print(json.dumps(s, indent=1, default=str)[:6000])
+    s.pop('samples', None); s.pop('leftover', None)
+    vs = s.pop('violations', [])
+    print(json.dumps(s, default=str))
+    seen = set()
+    for v in vs:
+        if v['assert'] in seen: continue
+        seen.add(v['assert'])
+        def show(i):
+            x = i['value']
+            if isinstance(x, dict) and 'str' in x: x = bytes(x['str'])
+            return (i['name'], x)
+        print('VIOL', v['assert'], [show(i) for i in v['inputs']][:20], v['note'][:200])
